@@ -205,10 +205,23 @@ func (r *R) Violation(caseID, signature, what string, detail any) {
 
 // Finish writes the shard file. It must be called once, at the end.
 func (r *R) Finish() {
+	// called as `defer r.Finish()`: a panic of the monitor or of the code under test ends the
+	// shard; what was observed so far is kept, the run is marked inconclusive, the panic goes on
+	if rec := recover(); rec != nil {
+		r.mu.Lock()
+		r.Inconclusive = append(r.Inconclusive, fmt.Sprintf("shard %d panicked: %.300v", r.Shard.Shard, rec))
+		r.mu.Unlock()
+		r.finish(false)
+		panic(rec)
+	}
+	r.finish(true)
+}
+
+func (r *R) finish(done bool) {
 	r.mu.Lock()
 	defer r.mu.Unlock()
 	r.WallS = time.Since(r.start).Seconds()
-	r.Done = true
+	r.Done = done
 	sort.Strings(r.Notes)
 	if r.out == "" {
 		bz, _ := json.MarshalIndent(r.Shard, "", " ")
